@@ -1411,3 +1411,5 @@ case("c16-refactor-reducer-locals", "C16", "refactor", [("src/stabilize/reducers
 case("c03-refactor-skip-branch-first", "C03", "refactor", [(H + "start_stage/handler.py", """                if readiness.phase == PredicatePhase.SKIP:
                     logger.warning(""", """                if readiness.phase is PredicatePhase.SKIP:
                     logger.warning(""")])
+case("c01-queue-push-inherits-message-id", "C01", "mutant", [("src/stabilize/queue/sqlite/queue.py", "        message_id = str(uuid.uuid4())", "        message_id = message.message_id or str(uuid.uuid4())")], "C01.R5")
+case("c01-refactor-row-id-helper", "C01", "refactor", [("src/stabilize/queue/sqlite/queue.py", "        message_id = str(uuid.uuid4())", "        row_identity = uuid.uuid4()\n        message_id = str(row_identity)")])
